@@ -357,3 +357,14 @@ Proof.
   cbv zeta. repeat split; try (vm_compute; reflexivity); try (vm_compute; discriminate).
   constructor; [right; reflexivity|]. constructor; [right; reflexivity|constructor].
 Qed.
+
+(* the codec, below the cap, IS t_reload: save t against dictionary d, load it against any later state of that
+   dictionary (more puts, save/reload events) *)
+Theorem tree_reload_codec : forall cap t d ops,
+  t_wfb t = true -> t_fitsb t = true -> (t_size t <= cap)%nat ->
+  tr_weight d + names_weight 0 t + Proofs.DictProofs.ops_weight ops < two55 ->
+  tc_deserialize (fold_left d_step ops (snd (tc_serialize cap t d))) (fst (tc_serialize cap t d)) = Some (t_reload t).
+Proof.
+  intros cap t d ops Hwf Hfit Hsz Hb. destruct (tc_serialize cap t d) as [bs d1] eqn:Hs. cbn [fst snd].
+  exact (tree_reload_below_cap cap t d bs d1 ops Hwf Hfit Hsz Hb Hs).
+Qed.
